@@ -19,6 +19,7 @@ from .rules import system_sem as RSS
 from .rules import omega_tab as RO
 from .rules import calculate as RCa
 from .rules import prism as RP2
+from .rules import prism_sem as RPS
 from .rules import omega as ROm
 from .rules import units as RU
 from .rules import invariance as RI
@@ -69,9 +70,9 @@ prop('C09',
 
 prop('C10',
      [('R00.dyn', RG.rule_no_dynamic), ('R10.d', RP.rule_definition), ('R03.d', RP.rule_core),
-      ('R10.k', RP.rule_cut_shift),
+      ('R10.k', RP.rule_cut_shift), ('R10.i', RP.rule_core_infinite),
       ('R10.w', RP.rule_wca), ('R10.p', RP.rule_purity), ('R10.h', RP.rule_history), ('R10.t', RP.rule_contact),
-      ('R10.g', RD.rule_grid_products), ('R16.w', RP2.rule_wiring), ('R16.c', RP2.rule_copy_and_frame),
+      ('R10.g', RD.rule_grid_products), ('R16.w', RP2.rule_wiring), ('R16.v', RPS.rule_wiring_concrete), ('R16.c', RP2.rule_copy_and_frame),
       ('R15.s', R15_DIAMETER)],
      'Static analysis of pyPRISM/potential: constructors and calculate(r) of every Potential subclass are abstractly '
      'interpreted with symbolic parameters (stored lambdas inlined with their captured constructor arguments, '
@@ -89,7 +90,7 @@ prop('C03',
       ('R03.b', RC.rule_mask_sites),
       ('R03.c', RC.rule_noflag_limit),
       ('R03.d', RP.rule_core), ('R09.p', RC.rule_purity), ('R09.h', RC.rule_history_values),
-      ('R16.w', RP2.rule_wiring), ('R16.c', RP2.rule_copy_and_frame), ('R10.h', RP.rule_history)],
+      ('R16.w', RP2.rule_wiring), ('R16.v', RPS.rule_wiring_concrete), ('R16.c', RP2.rule_copy_and_frame), ('R10.h', RP.rule_history)],
      'Static analysis: (a) with the hard-core flag every closure returns exactly -1-gamma on r<sigma and r==sigma '
      '(three orderings enumerated on the extracted piecewise term), hence c+gamma=-1 there for every gamma; '
      '(b) the mask compares the grid argument with the closure own sigma; (c) PY and HNC without the flag reduce to '
@@ -115,7 +116,7 @@ prop('C07',
      'rounding error magnitude; the behaviour of scipy.fftpack.dst itself (trusted, A2).')
 
 prop('C08',
-     [('R00.dyn', RG.rule_no_dynamic), ('R08.f', RD.rule_prefactors), ('R07.g', RD.rule_grid), ('R07.i', RD.rule_mutators)],
+     [('R00.dyn', RG.rule_no_dynamic), ('R08.f', RD.rule_prefactors), ('R08.i', RD.rule_integer_spacing), ('R07.g', RD.rule_grid), ('R07.i', RD.rule_mutators)],
      'Static analysis: the extracted transforms equal dst2(2 pi r dr f)/k and dst3(k dk/(4 pi^2) F)/r term by term '
      '(absolute prefactors of the 3-D radial pair: with the factor 2 built into DST-II/III, forward 4 pi and backward '
      '1/(2 pi^2)), DST types 2/3 without normalisation keywords, dk = pi/(dr*length), r_i=(i+1)dr, k_j=(j+1)dk. This is '
@@ -168,7 +169,7 @@ prop('C14',
 
 prop('C15',
      [('R00.dyn', RG.rule_no_dynamic), ('R15.f', R15_DENSITY), ('R15.s', R15_DIAMETER),
-      ('R15.k', R15_CHECKS), ('R15.w', RDn.rule_who_may_write), ('R13.9', RM.rule_items),
+      ('R15.k', R15_CHECKS), ('R15.c', RDS.rule_total_no_stale_operand), ('R15.w', RDn.rule_who_may_write), ('R13.9', RM.rule_items),
       ('R14.m', R14_SETITEM), ('R14.k', R14_SETUNSET)],
      'Static analysis of Density/Diameter by abstract execution of the real classes (with the real ValueTable, PairTable and '
      'MatrixArray underneath) on concrete type lists of 1-4 labels -- strings and integers, boxed so that a label is equal to, '
@@ -230,7 +231,7 @@ prop('C06',
 
 prop('C16',
      [('R00.dyn', RG.rule_no_dynamic), ('R16.x', _fb(RSS.rule_system_check, RP2.rule_system_check)), ('R16.i', RSS.rule_system_iterpairs), ('R16.d', RP2.rule_check_dominates),
-      ('R16.c', RP2.rule_copy_and_frame), ('R16.w', RP2.rule_wiring), ('R14.c', R14_SETITEM),
+      ('R16.c', RP2.rule_copy_and_frame), ('R16.w', RP2.rule_wiring), ('R16.v', RPS.rule_wiring_concrete), ('R14.c', R14_SETITEM),
       ('R14.k', R14_SETUNSET), ('R07.i', RD.rule_mutators)],
      'Static analysis of System/PRISM construction: System.check is decided by executing the real System (real tables, Domain, '
      'MatrixArrays) over concrete labels: the complete system passes without a write, each single omission (domain, a density, '
@@ -251,7 +252,7 @@ prop('C16',
 
 prop('C01',
      [('R00.dyn', RG.rule_no_dynamic), ('R01.a', RP2.rule_cost), ('R01.f', RP2.rule_post_solve), ('R01.s', RP2.rule_solver_arguments),
-      ('R16.w', RP2.rule_wiring), ('R16.c', RP2.rule_copy_and_frame),
+      ('R16.w', RP2.rule_wiring), ('R16.v', RPS.rule_wiring_concrete), ('R16.c', RP2.rule_copy_and_frame),
       ('R09.d', RC.rule_definition), ('R03.a', RC.rule_core), ('R09.p', RC.rule_purity), ('R09.h', RC.rule_history_values),
       ('R14.c', R14_SETITEM),
       ('R15.f', R15_DENSITY), ('R07.t', RD.rule_roundtrip), ('R07.i', RD.rule_mutators),
@@ -320,7 +321,7 @@ prop('C04',
       ('R15.f', R15_DENSITY), ('R15.s', R15_DIAMETER), ('R13.9', RM.rule_items),
       ('R14.m', R14_SETITEM), ('R13.i', RM.rule_iterpairs), ('R13.t', RM.rule_typemap), ('R14.i', R14_ITERPAIRS),
       ('R05.x', RCa.rule_chi), ('R05.l', RCa.rule_spinodal), ('R05.b2', RCa.rule_second_virial),
-      ('R16.w', RP2.rule_wiring), ('R01.a', RP2.rule_cost)],
+      ('R16.w', RP2.rule_wiring), ('R16.v', RPS.rule_wiring_concrete), ('R01.a', RP2.rule_cost)],
      'Static analysis of the structural part: (permutation/renaming) core/ and calculate/ never address a type by a '
      'literal name or position and compare labels only for (in)equality, all type-keyed storage is symmetric (MatrixArray '
      'setter, PairTable mirror, no asymmetric table is ever constructed), every pair loop visits each unordered pair once '
